@@ -385,9 +385,11 @@ def eligible(fi):
     if fi.parent is not None:           # nested function: closes over its parent's locals
         return False
     for x in _own(n):
-        if isinstance(x, (ast.Yield, ast.YieldFrom, ast.Await, ast.Global, ast.Nonlocal, ast.FunctionDef,
+        if isinstance(x, (ast.Yield, ast.YieldFrom, ast.Await, ast.Nonlocal, ast.FunctionDef,
                           ast.AsyncFunctionDef, ast.ClassDef)):
             return False
+        if isinstance(x, ast.Global) and fi.cls is not None:
+            return False            # (module-level helpers only: the expansion re-declares the names in a caller of the same module)
         if isinstance(x, ast.Call) and isinstance(x.func, ast.Name) and x.func.id in ("locals", "vars", "super") \
                 and not x.args and x.func.id != "super":
             return False
@@ -832,8 +834,29 @@ def _expand(cx, st, call, parent, field, idx, h, recv):
     body = copy.deepcopy(h.node.body)
     if body and isinstance(body[0], ast.Expr) and isinstance(body[0].value, ast.Constant) and isinstance(body[0].value.value, str):
         body = body[1:]
+    # a helper that declares module names `global` (a memo, a counter) can only be expanded into a function of the same module
+    # that does not use those names for something else; the declaration moves to the top of the caller
+    gl = set(n_ for x in _own(h.node) if isinstance(x, ast.Global) for n_ in x.names)
+    if gl:
+        if h.module is not cx.fi.module or (gl & (set(cx.fi.params) | (set(cx.fi.locals) - cx.fi.global_names))):
+            return None
+        body = [x for x in body if not isinstance(x, ast.Global)]
+        for x in body:
+            for y in list(ast.walk(x)):
+                for fld in ("body", "orelse", "finalbody"):
+                    v = getattr(y, fld, None)
+                    if isinstance(v, list) and any(isinstance(z, ast.Global) for z in v):
+                        setattr(y, fld, [z for z in v if not isinstance(z, ast.Global)] or [ast.Pass()])
+        missing = sorted(gl - cx.fi.global_names)
+        if missing:
+            decl = ast.Global(names=missing)
+            ast.copy_location(decl, cx.fi.node.body[0])
+            decl._inl = True
+            k0 = 1 if (isinstance(cx.fi.node.body[0], ast.Expr) and isinstance(cx.fi.node.body[0].value, ast.Constant) and isinstance(cx.fi.node.body[0].value.value, str)) else 0
+            cx.pending_globals = getattr(cx, "pending_globals", []) + [(k0, decl)]
+            cx.fi._locals = None
     holder = ast.Module(body=body, type_ignores=[])
-    stored = _stores(holder)
+    stored = _stores(holder) - gl
     cx.count += 1
     uid = "%s#%d" % (h.qualname, cx.count)
     subst, ren, binds = {}, {}, []
@@ -1099,6 +1122,8 @@ def normalise(repo):
                 continue
             cx = _Ctx(repo, fi, ready)
             fi.node.body = _process_body(cx, fi.node.body)
+            for k0, decl in getattr(cx, "pending_globals", []):
+                fi.node.body.insert(k0, decl)
             if cx.changed:
                 changed_any = True
                 fi._locals = None
